@@ -34,6 +34,8 @@ type vUT struct {
 	idx   VectorIndex
 	m     *vRef
 	nlist int
+	pq    *PQIndex
+	ivfpq *IVFPQIndex
 }
 
 // vMakeIndex builds an index of the given kind.  Trained kinds are put in a
@@ -56,7 +58,17 @@ func vMakeIndex(kind int, metric DistanceKind, dim, nlist int) *vUT {
 	return vMakeIndexC(kind, metric, dim, nlist, false)
 }
 
+// PQ shape used by vMakeIndexC (0 = default: M = dim, nbits = 1)
+var vPQM, vPQNbits int
+
 func vMakeIndexC(kind int, metric DistanceKind, dim, nlist int, symCentroids bool) *vUT {
+	pqM, pqNbits := dim, 1
+	if vPQM > 0 {
+		pqM = vPQM
+	}
+	if vPQNbits > 0 {
+		pqNbits = vPQNbits
+	}
 	u := &vUT{kind: kind, m: vNewRef(metric), nlist: nlist}
 	vTag("kind=" + vKindNames[kind])
 	switch kind {
@@ -75,7 +87,7 @@ func vMakeIndexC(kind int, metric DistanceKind, dim, nlist int, symCentroids boo
 		idx.trained = true
 		u.idx = idx
 	case vKPQ:
-		idx, err := NewPQIndex(dim, metric, dim, 1)
+		idx, err := NewPQIndex(dim, metric, pqM, pqNbits)
 		vAssert(err == nil, "constructor")
 		idx.codebooks = make([][]float32, idx.M)
 		for mm := range idx.codebooks {
@@ -83,6 +95,7 @@ func vMakeIndexC(kind int, metric DistanceKind, dim, nlist int, symCentroids boo
 		}
 		idx.trained = true
 		u.idx = idx
+		u.pq = idx
 		u.m.scoreFn = func(pq []float32, e *vRefEntry) float32 {
 			for i, vn := range idx.vectorNodes {
 				if vn.ID() == e.id {
@@ -99,7 +112,7 @@ func vMakeIndexC(kind int, metric DistanceKind, dim, nlist int, symCentroids boo
 			return 0
 		}
 	case vKIVFPQ:
-		idx, err := NewIVFPQIndex(dim, metric, nlist, dim, 1)
+		idx, err := NewIVFPQIndex(dim, metric, nlist, pqM, pqNbits)
 		vAssert(err == nil, "constructor")
 		idx.centroids = vCentroids(nlist, dim, symCentroids)
 		idx.codebooks = make([][]float32, idx.M)
@@ -112,6 +125,7 @@ func vMakeIndexC(kind int, metric DistanceKind, dim, nlist int, symCentroids boo
 		}
 		idx.trained = true
 		u.idx = idx
+		u.ivfpq = idx
 		u.m.scoreFn = func(pq []float32, e *vRefEntry) float32 {
 			for li, list := range idx.lists {
 				for _, cv := range list {
@@ -292,13 +306,7 @@ func H_C02_node() {
 	if err != nil {
 		return
 	}
-	vAssert(len(res) == len(res2), "node-equals-vector-query-len")
-	for i := range res {
-		if i < len(res2) {
-			vAssert(res[i].GetId() == res2[i].GetId(), "node-equals-vector-query-id")
-			vAssert(vSameF32(res[i].Score, res2[i].Score), "node-equals-vector-query-score")
-		}
-	}
+	vSameResults(res, res2, "node-equals-vector-query")
 	vCover("node-ok")
 }
 
@@ -379,12 +387,6 @@ func H_C02_flush() {
 	if e1 != nil {
 		return
 	}
-	vAssert(len(before) == len(after), "flush-invariant-len")
-	for i := range before {
-		if i < len(after) {
-			vAssert(before[i].GetId() == after[i].GetId(), "flush-invariant-id")
-			vAssert(vSameF32(before[i].Score, after[i].Score), "flush-invariant-score")
-		}
-	}
+	vSameResults(before, after, "flush-invariant")
 	vCover("flush")
 }
